@@ -2,7 +2,7 @@
     (proof/C04_CompBt.v) to "its_list of a fresh reactor contains it" (no _explicit_h stage in implicit mode). *)
 From Coq Require Import List NArith ZArith Bool Arith Lia.
 From Coq Require Import Permutation SetoidList.
-From SK Require Import lib.Tok lib.LGraph lib.Mono model.C06_Model lib.C06_Spec proof.C06_All proof.C06_Main model.C11_Model proof.C11_Aut proof.C11_Dedup proof.C11_Main.
+From SK Require Import lib.Tok lib.LGraph lib.Mono model.C06_Model lib.C06_Spec proof.C06_All proof.C06_Comp proof.C06_Main model.C11_Model proof.C11_Aut proof.C11_Dedup proof.C11_Main.
 From SK Require Import model.C03_Model model.C04_Model model.C04_Reactor proof.C03_Proof proof.C04_Glue proof.C04_Template proof.C04_Proof
                        proof.C03_Glue proof.C03_Backward proof.C04_Any proof.C04_Prune proof.C04_Engine proof.C04_Object proof.C04_Chain proof.C04_DefaultChain proof.C04_CompBt.
 Import ListNotations.
@@ -156,4 +156,128 @@ Section CompBtSound.
           - destruct Hcase as [Hc|[Hc|Hc]]; [discriminate|discriminate|]. exact (proj2 HT1 idm id_mono' Hc). }
         destruct (C06_Model.find enum (Cfg 1 0 T true false) Hh Pp) as [|x0 xs] eqn:E1; [destruct Hin as (m0 & [] & _)|exact Hin].
   Qed.
+
+  (** * the same with an EXPLICIT threshold bound (C06's [comp_bound]: the largest intermediate list of the component-aware search),
+      for any embed_threshold including the default None = 5000 *)
+  Lemma comp_find_at (T : N) : (comp_bound enum true Hh Pp <= T)%N ->
+    C06_Model.find enum (Cfg 1 0 T true false) Hh Pp = comp_unl enum true Hh Pp.
+  Proof. intros HT. exact (find_comp_unlimited enum T true Hh Pp HT). Qed.
+
+  Theorem comp_regenerates_at (o : ropts) :
+    (0 <? pcc)%nat && (pcc <? hcc)%nat = false ->
+    ((hcc <? pcc)%nat = true \/ separating Hh Pp idm) ->
+    o_strategy o = SMember 1%N -> o_pref o = false ->
+    (comp_bound enum true Hh Pp <= dflt DEFAULT_THRESHOLD (o_thr o))%N ->
+    regenerates_sound o.
+  Proof.
+    intros NG Hcase Es Ep Hb. set (T := dflt DEFAULT_THRESHOLD (o_thr o)) in *.
+    destruct (comp_spec enum true Hh Pp HwfH HwfP Hor) as (T0 & HT0).
+    set (Tm := N.max T0 (comp_bound enum true Hh Pp)).
+    assert (H0 : (T0 <= Tm)%N) by (unfold Tm; lia). assert (H1 : (comp_bound enum true Hh Pp <= Tm)%N) by (unfold Tm; lia).
+    specialize (HT0 Tm H0). cbv zeta in HT0. fold hcc in HT0. fold pcc in HT0. destruct HT0 as [_ HT0].
+    rewrite (comp_find_at Tm H1), <- (comp_find_at T Hb) in HT0.
+    rewrite NG in HT0. cbn [andb] in HT0.
+    apply (regen_of_raw' o (C06_Model.find enum (Cfg 1 0 T true false) Hh Pp)).
+    - rewrite Es, Ep. reflexivity.
+    - destruct (hcc <? pcc)%nat; [exact (proj1 HT0)|]. intros m I. exact (proj1 (proj1 HT0 m I)).
+    - destruct (hcc <? pcc)%nat eqn:E.
+      + exact (proj2 HT0 idm id_mono').
+      + destruct Hcase as [Hc|Hc]; [discriminate|]. exact (proj2 HT0 idm id_mono' Hc).
+  Qed.
+
+  Theorem bt_regenerates_at (o : ropts) :
+    ((0 <? pcc)%nat && (pcc <? hcc)%nat = true \/ (hcc <? pcc)%nat = true \/ separating Hh Pp idm) ->
+    o_strategy o = SMember 2%N -> o_pref o = false ->
+    (N.max (comp_bound enum true Hh Pp) (lenN (enum (node_ids Hh) (node_ids Pp))) <= dflt DEFAULT_THRESHOLD (o_thr o))%N ->
+    regenerates_sound o.
+  Proof.
+    intros Hcase Es Ep Hb. set (T := dflt DEFAULT_THRESHOLD (o_thr o)) in *.
+    assert (Hb1 : (comp_bound enum true Hh Pp <= T)%N) by lia. assert (Hb2 : (lenN (enum (node_ids Hh) (node_ids Pp)) <= T)%N) by lia.
+    destruct (comp_spec enum true Hh Pp HwfH HwfP Hor) as (T1 & HT1).
+    destruct (bt_spec_unlimited enum true Hh Pp) as (T2 & HT2).
+    set (Tm := N.max (N.max T1 T2) T).
+    assert (G1 : (T1 <= Tm)%N) by (unfold Tm; lia). assert (G2 : (T2 <= Tm)%N) by (unfold Tm; lia).
+    assert (G3 : (comp_bound enum true Hh Pp <= Tm)%N) by (unfold Tm; lia). assert (G4 : (lenN (enum (node_ids Hh) (node_ids Pp)) <= Tm)%N) by (unfold Tm; lia).
+    specialize (HT1 Tm G1). specialize (HT2 Tm G2). cbv zeta in HT1. fold hcc in HT1. fold pcc in HT1. destruct HT1 as [_ HT1].
+    (* every quantity at Tm is the quantity at T *)
+    assert (Ebt : C06_Model.find enum (Cfg 2 0 T true false) Hh Pp = C06_Model.find enum (Cfg 2 0 Tm true false) Hh Pp).
+    { rewrite (find_bt_unlimited enum T true Hh Pp Hb1 Hb2), (find_bt_unlimited enum Tm true Hh Pp G3 G4). reflexivity. }
+    assert (Eall : C06_Model.find enum (Cfg 0 0 Tm true false) Hh Pp = C06_Model.find enum (Cfg 0 0 T true false) Hh Pp).
+    { rewrite (find_all_unlimited enum Tm true Hh Pp G4), (find_all_unlimited enum T true Hh Pp Hb2). reflexivity. }
+    rewrite (comp_find_at Tm G3), <- (comp_find_at T Hb1) in HT1, HT2. rewrite Eall in HT2.
+    destruct (all_exact enum T true Hh Pp (proj1 Hor) Hb2) as (As & Ac & _).
+    apply (regen_of_raw' o (C06_Model.find enum (Cfg 2 0 T true false) Hh Pp)).
+    - rewrite Es, Ep. reflexivity.
+    - rewrite Ebt, HT2. destruct ((0 <? pcc)%nat && (pcc <? hcc)%nat) eqn:EG; cbn [andb] in HT1.
+      + rewrite HT1. exact As.
+      + destruct (C06_Model.find enum (Cfg 1 0 T true false) Hh Pp) as [|x0 xs] eqn:E1; [exact As|].
+        destruct (hcc <? pcc)%nat; [exact (proj1 HT1)|]. intros m I. exact (proj1 (proj1 HT1 m I)).
+    - rewrite Ebt, HT2. destruct ((0 <? pcc)%nat && (pcc <? hcc)%nat) eqn:EG; cbn [andb] in HT1.
+      + rewrite HT1. exact (Ac idm id_mono').
+      + assert (Hin : exists m0, In m0 (C06_Model.find enum (Cfg 1 0 T true false) Hh Pp) /\ Permutation idm m0).
+        { destruct (hcc <? pcc)%nat eqn:E.
+          - exact (proj2 HT1 idm id_mono').
+          - destruct Hcase as [Hc|[Hc|Hc]]; [discriminate|discriminate|]. exact (proj2 HT1 idm id_mono' Hc). }
+        destruct (C06_Model.find enum (Cfg 1 0 T true false) Hh Pp) as [|x0 xs] eqn:E1; [destruct Hin as (m0 & [] & _)|exact Hin].
+  Qed.
 End CompBtSound.
+
+(** * own templates, implicit mode, at the level of the reactor object, for ANY embed_threshold [thr] (None = the default 5000) that
+    is not below C06's bound *)
+Section OwnImplicitAt.
+  Variable enum : list N -> list N -> list C06_Model.mapping.
+  Variable rematch : nat -> hostg -> molg -> list C03_Model.mapping.
+  Variables (core invert : bool) (G H : hostg) (thr : option N).
+  Hypothesis W : pair_wfb G H = true.
+  Hypothesis NH : no_explicit_H G = true.
+  Hypothesis CC : core = true -> centre_carries (its_construct G H) = true.
+  Let A := if invert then H else G.
+  Let B := if invert then G else H.
+  Let tpl := template core invert G H.
+  Let l := dec_side iG eG tpl.
+  Let r := dec_side iH eH tpl.
+  Hypothesis Hnn : forallb (fun p => 0 <=? m_hc (snd p)) (gnodes l) = true.
+  Hypothesis Hor : oracle_ok enum (tr_host A) (tr_pat l).
+
+  Let D : describes A B tpl := template_describes core invert G H W NH CC.
+  Let PW : pair_wf A B := pair_AB core invert G H W.
+  Let LO : left_of tpl l := own_left_of tpl (d_wf _ _ _ D).
+  Let Hf : has_XH l = false := own_no_XH core invert G H W NH.
+  Let GH : gwf (tr_host A) := own_gwf_host core invert G H W NH CC.
+  Let GP : gwf (tr_pat l) := own_gwf_pat core invert G H W NH CC.
+
+  Lemma own_sep : id_separatingb (tr_host A) (tr_pat l) = true -> separating (tr_host A) (tr_pat l) (id_map (node_ids l)).
+  Proof.
+    intros Hc. rewrite <- tr_pat_ids. apply id_separatingb_sound; [exact GH|exact GP| |exact Hc].
+    intros n In_. rewrite tr_pat_ids in In_. rewrite tr_host_ids. unfold l, tpl in In_. rewrite (pattern_ids core invert G H) in In_. fold tpl in In_.
+    destruct (in_ids_label tpl n In_) as [a Ea]. destruct (d_nodes _ _ _ D n a (assoc_in n (gnodes tpl) Ea)) as (x & _ & Ex & _).
+    exact (label_some_in A n x Ex).
+  Qed.
+
+  Theorem own_comp_implicit_at :
+    (0 <? length (comps (tr_pat l)))%nat && (length (comps (tr_pat l)) <? length (comps (tr_host A)))%nat = false ->
+    ((length (comps (tr_host A)) <? length (comps (tr_pat l)))%nat = true \/ id_separatingb (tr_host A) (tr_pat l) = true) ->
+    (comp_bound enum true (tr_host A) (tr_pat l) <= dflt DEFAULT_THRESHOLD thr)%N ->
+    exists gs Tt, fst (read_its (api_engine enum) rematch (own_opts invert false (SMember 1%N) thr false) A (tpl, l, r) fresh) = Some gs /\
+                  In Tt gs /\ regen_exact Tt A B = true.
+  Proof.
+    intros NG Hc Hb.
+    destruct (comp_regenerates_at enum A B tpl l r PW D LO Hf Hnn GH GP Hor (own_opts invert false (SMember 1%N) thr false) NG) as (ms & y & Tt & Em & _ & Iy & Eg & Rg);
+      [destruct Hc as [Hc|Hc]; [left; exact Hc|right; exact (own_sep Hc)]|reflexivity|reflexivity|exact Hb|].
+    destruct (its_of_mappings (api_engine enum) rematch (own_opts invert false (SMember 1%N) thr false) A tpl l r ms y Tt eq_refl Hf Em Iy Eg) as (gs & Egs & It).
+    exists gs, Tt. auto.
+  Qed.
+  Theorem own_bt_implicit_at :
+    ((0 <? length (comps (tr_pat l)))%nat && (length (comps (tr_pat l)) <? length (comps (tr_host A)))%nat = true \/
+     (length (comps (tr_host A)) <? length (comps (tr_pat l)))%nat = true \/ id_separatingb (tr_host A) (tr_pat l) = true) ->
+    (N.max (comp_bound enum true (tr_host A) (tr_pat l)) (lenN (enum (node_ids (tr_host A)) (node_ids (tr_pat l)))) <= dflt DEFAULT_THRESHOLD thr)%N ->
+    exists gs Tt, fst (read_its (api_engine enum) rematch (own_opts invert false (SMember 2%N) thr false) A (tpl, l, r) fresh) = Some gs /\
+                  In Tt gs /\ regen_exact Tt A B = true.
+  Proof.
+    intros Hc Hb.
+    destruct (bt_regenerates_at enum A B tpl l r PW D LO Hf Hnn GH GP Hor (own_opts invert false (SMember 2%N) thr false)) as (ms & y & Tt & Em & _ & Iy & Eg & Rg);
+      [destruct Hc as [Hc|[Hc|Hc]]; [left; exact Hc|right; left; exact Hc|right; right; exact (own_sep Hc)]|reflexivity|reflexivity|exact Hb|].
+    destruct (its_of_mappings (api_engine enum) rematch (own_opts invert false (SMember 2%N) thr false) A tpl l r ms y Tt eq_refl Hf Em Iy Eg) as (gs & Egs & It).
+    exists gs, Tt. auto.
+  Qed.
+End OwnImplicitAt.
